@@ -7,7 +7,8 @@ PROP = dict(
               "semantics for user-supplied coins, GetMaximalNoSwapLPAmount, CalcExitPool pro-rata + processExitPool, keeper.ExitPool guards, "
               "Pool.TVL, oracle single-sided join/exit kernels with the weight-breaking fee taken from the implementation, "
               "single-asset weighted join around Pow)",
-        coq_deps=["Base/", "Models/AmmJoinExit.v", "Proofs/AmmJoinExitProofs.v", "Run/AmmJoinExitRun.v", "Props/C05.v"],
+        coq_deps=["Base/", "Models/AmmJoinExit.v", "Proofs/AmmJoinExitProofs.v", "Run/AmmJoinExitRun.v", "Models/AmmSwap.v", "Proofs/AmmSwapProofs.v",
+                  "Proofs/AmmSwapProofs2.v", "Proofs/PowBounds.v", "Proofs/PowSeries.v", "Proofs/PowJoin.v", "Props/C05.v"],
         rule="pure cases: types.Pool values with 2-4 assets, reserves 1..1e30 per decade (also 0, 1, 2..9), supplies 1..1e6 and 1e18..1e30, "
              "deposits as a fraction of the pool +-1 / relative to the reserve (1, 0.1%, 1/3, 1/2, all-1, all, all+1, 2-10x, 10^-k) / per decade, "
              "requested shares 0, -5, 1, S/1e18, relative, up to 900 x supply, exiting shares 0, negative, relative, >= supply; ~6% malformed coin "
@@ -31,5 +32,7 @@ PROP = dict(
                      "the pre-fix code is refuted (C05_join_duplicate_denom_prefix_refuted)",
                      "C05_exit_never_empties covers the pro-rata exit, C05_oracle_exit_never_empties the oracle single-sided exit (since fix: 1c2976e); "
                      "the pre-fix code is refuted (C05_oracle_exit_never_empties_prefix_refuted)",
-                     "C05_single_asset_join_partial assumes Pow(y,w) <= y"],
+                     "C05_single_asset_join_partial assumes Pow(y,w) <= y; C05_single_asset_join proves it from the exact model of Pow (Models/AmmSwap.v pow, "
+                     "the model the C03 harness replays against the Go Pow) for normalized weight 0, 1/2, 1 and for every weight when y < 2 "
+                     "(deposit after fee below the reserve); y >= 2 with another weight (ln/exp method) stays _partial"],
     )
